@@ -241,9 +241,9 @@ def check(model, rep):
         if isinstance(x, ast.Assign) and isinstance(x.targets[0], ast.Name):
             asg[x.targets[0].id] = x.value
     r = returns_of(inv)
-    v = r[0].value if r else None
-    got = Inliner(inv).text(v) if v is not None else '?'
-    rep.ob('R04.2', inv, 'tm(TransInv(self.TM))', got in ('tm(mr.TransInv(self.TM))', 'tm(mr.TransInv(self.gTM()))'), 'inv() is %s' % got)
+    gots = [Inliner(inv).text(x.value) if x.value is not None else '<none>' for x in r] or ['?']
+    bad = [g for g in gots if g not in ('tm(mr.TransInv(self.TM))', 'tm(mr.TransInv(self.gTM()))')]
+    rep.ob('R04.2', inv, 'tm(TransInv(self.TM))', not bad, 'inv() returns %s' % (bad[0] if bad else gots[0]))
     for name, kern in (('localToGlobal', 'LocalToGlobal'), ('globalToLocal', 'GlobalToLocal')):
         fi = model.func(HELP, name)
         r = returns_of(fi)
@@ -258,7 +258,7 @@ def check(model, rep):
     rep.rule('R04.3', 'getQuat/setQuat: same scipy convention (default scalar-last), same 3x3 block, setQuat syncs')
     gq, sq = M('getQuat'), M('setQuat')
     r = returns_of(gq)
-    g_ok = bool(r) and src(r[0].value).replace(' ', '') == 'R.from_matrix(self.TM[0:3,0:3]).as_quat()'
+    g_ok = bool(r) and all(x.value is not None and src(x.value).replace(' ', '') == 'R.from_matrix(self.TM[0:3,0:3]).as_quat()' for x in r)
     st = [x for x in walk_own(sq.node) if isinstance(x, ast.Assign) and src(x.targets[0]).startswith('self.')]
     s_ok = len(st) == 1 and src(st[0].targets[0]).replace(' ', '') == 'self.TM[0:3,0:3]' and \
         src(st[0].value).replace(' ', '') == 'R.from_quat(%s).as_matrix()' % sq.params[1]
